@@ -258,6 +258,9 @@ class C07(Property):
                 "_env": fl.make_env(case["kinds"], texts, fl.observed_compounds(el, case["schema"])),
                 "_applied": applied}
 
+    def has_model(self, case):
+        return not fl.digit_sep(case["sep"])
+
     def model_input(self, case, obs):
         if not obs or "skip" in obs or "_elem" not in obs:
             return {"schema": case["schema"], "sep": case["sep"], "elem": {"leaf": ""}, "env": fl.make_env([], [], [])}
